@@ -850,7 +850,9 @@ def w5(ctx, rep):
     fns = {}
     for e in ctx.events:
         if e.kind == "resize" and e.cls in ("ln", "bbn", "lnbbn"):
-            root = e.body.id.split("::{closure")[0]
+            # the function the resize was WRITTEN in: a growth helper spliced into its two callers (rules/inline.py) is
+            # still one site
+            root = e.body.origin(e.bb).split("::{closure")[0]
             if root.startswith("nomt::beatree::create") or root == "nomt::beatree::create":
                 continue
             fns.setdefault(root, []).append(e.site)
